@@ -54,8 +54,8 @@ savars == <<want, final, reponames>>
 EmptyFn == << >>
 Put(f, k, v) == [x \in DOMAIN f \cup {k} |-> IF x = k THEN v ELSE f[x]]
 Del(f, k)    == [x \in DOMAIN f \ {k} |-> f[x]]
-Max(a, b)    == IF a >= b THEN a ELSE b
-Min(a, b)    == IF a <= b THEN a ELSE b
+FMax(a, b)    == IF a >= b THEN a ELSE b
+FMin(a, b)    == IF a <= b THEN a ELSE b
 Parent(p)    == SubSeq(p, 1, Len(p) - 1)
 Under(d, p)  == Len(d) < Len(p) /\ SubSeq(p, 1, Len(d)) = d
 
@@ -93,7 +93,7 @@ IsFile(fd) == fd \in DOMAIN fdt /\ fdt[fd].kind = "file"
 Written(c, o, m) ==
   IF m = 0 THEN c
   ELSE IF c.kind = "new" /\ o = c.valid
-       THEN [c EXCEPT !.valid = o + m, !.size = Max(c.size, o + m)]
+       THEN [c EXCEPT !.valid = o + m, !.size = FMax(c.size, o + m)]
        ELSE [c EXCEPT !.kind = "torn"]
 
 \* write(2) (poff < 0: at the descriptor's offset) / pwrite64(2) (poff >= 0) returning m;
@@ -130,7 +130,7 @@ SysTruncate(fd, len) ==
   /\ LET i == fdt[fd].ino
          c == vcon[i]
      IN vcon' = Put(vcon, i, IF len = c.size THEN c
-                             ELSE IF c.kind = "new" THEN [c EXCEPT !.size = len, !.valid = Min(c.valid, len)]
+                             ELSE IF c.kind = "new" THEN [c EXCEPT !.size = len, !.valid = FMin(c.valid, len)]
                              ELSE [c EXCEPT !.kind = "torn"])
   /\ UNCHANGED <<vdir, ddir, dcon, mkd, fdt>>
 
